@@ -224,4 +224,10 @@ def run(ctx):
     rules.append(rule_utf(ctx, m))
     from rules.common import rule_case_pairs
     rules.append(rule_case_pairs(ctx, m))
+    from rules.common import rule_exponent_marker
+    rules.append(rule_exponent_marker(ctx, m))
+    from rules.common import rule_sign_unit
+    rules.append(rule_sign_unit(ctx, m, ['JSON.hpp', 'JSONUtils.hpp', 'Digit.hpp', 'StringUtils.hpp', 'Unicode.hpp']))
+    from rules.common import rule_accumulate
+    rules.append(rule_accumulate(ctx, m))
     return rules
